@@ -7,6 +7,9 @@ mod monitor;
 mod model;
 mod world;
 mod e1_tx;
+mod e1_twin;
+mod e1_valid;
+mod e1_collide;
 mod checks;
 
 fn main() {
